@@ -149,6 +149,17 @@ def oracle(case):
         if p[1] in vy:
             nt = True
             labels.append("point:level-with-vertex")
+    # the documented reuse of the answer vector: a recycled buffer holding
+    # stale values gives the same answers
+    buf = np.ones(len(Q), dtype=np.int32)
+    r_buf = gutils.points_inside_polygon(
+        np.ascontiguousarray(Q), np.ascontiguousarray(Pc), inside=buf)
+    if not np.array_equal(np.asarray(r_buf).astype(bool), res):
+        k = int(np.argmax(np.asarray(r_buf).astype(bool) != res))
+        raise Violation(
+            f"passing a recycled `inside` vector changes the answer for "
+            f"point {pts[k]}: {int(res[k])} -> {int(r_buf[k])}; polygon "
+            f"{poly}")
     if not judged:
         return {"nt": False, "labels": labels}
     J = np.array(judged)
